@@ -35,7 +35,7 @@ CHECKS = {
              'are represented by 0,7,A; strings longer than the bound are covered only through the DFA product.'),
     'C18': dict(
         level='model_checking', design='DESIGN.md §4 C18',
-        technique='exhaustive enumeration of all strings over a 9-symbol alphabet up to length 7 (thorough 9) and of all '
+        technique='exhaustive enumeration of all strings over a 10-symbol alphabet up to length 7 (thorough 8) and of all '
                   'fragment sequences up to 4 (thorough 5) against a reference tokeniser; full product of message x query '
                   'x nest-level argument x pragma for the runner',
         text='Every string of the bounded script space is preprocessed by the real code and compared with the reference '
@@ -253,6 +253,41 @@ CHECKS = {
 NOT_YET = 'no check exists for this property; no claim is made'
 
 
+# additions of the third build round (DESIGN 13.3), appended to the text / technique of the check
+EXTRA = {
+    'C02': ('; bitmap structures in the encode direction with per-subset bitmaps',
+            ' Bitmap structures (per-subset bitmaps and counts, marker operators, chains) are encoded too.'),
+    'C04': ('', ' Bytes in front of the start signature are a deviation of the decoder part.'),
+    'C06': ('; the joint decode is repeated with template compilation', ' The open-operator and bitmap families are also decoded jointly with compiled templates.'),
+    'C07': ('; links also judged with template compilation', ''),
+    'C08': ('; free-form programs (item lists over markers, operator brackets and loops, outside the reference envelope) x fixed '
+            'data patterns judged differentially; in-process command line',
+            ' Free-form programs (mc/gen/freeform.py: every item list up to a weight and nesting bound over markers, elements, '
+            'operator brackets and fixed / delayed loops, also with a delayed replication before the bitmap) x six data patterns '
+            'x {1, 2, 2 compressed subsets} are decoded and encoded with and without compilation; the command line is driven '
+            'with and without --compiled-template-cache-max and `compile` output is loaded and executed.'),
+    'C09': ('; free-form programs judged against the flat JSON', ' Free-form programs (nested 204, operators over class 31, markers in loops) are rendered four ways as well.'),
+    'C10': ('; all sequences of 2 (3) subset() calls on one message object', ' Call sequences: several selections taken from one message object before any result is encoded.'),
+    'C11': ('; every value of the low and middle octet of the total length', ' Streams [A, M_L, A] for total lengths L covering every value of the low and middle length octets.'),
+    'C12': ('; earlier operations on the same decoder; two damaged messages of different lengths followed by others',
+            ' A decoder-history part repeats every (message, fault) after 7 kinds of earlier operation on the same decoder object.'),
+    'C13': ('; a second pool of messages that end or fail with operator state in force, decode options and editions',
+            ' A second pool (28 operations: messages ending or failing with 201-208/203/204/221/bitmap state in force, plain probes, '
+            'decode options, editions 2-4) is explored the same way; goldens and encoder inputs each come from their own fresh process.'),
+    'C14': ('; request histories against two tables directories', ' Histories of table-group requests against the bundled and a private tables directory.'),
+    'C16': ('; the whole slice lattice at every step and as selector; free-form programs; in-process command line',
+            ' The complete slice lattice (618 slices) is applied at every step and as subset selector over sibling-rich templates; '
+            'free-form programs are queried against their own nested JSON; `pybufrkit query` is driven in text and JSON modes.'),
+    'C17': ('; metadata-only decoding after option histories; in-process command line',
+            ' Metadata-only decoding of data-damaged messages is repeated after every history of <= 2 earlier calls (full / '
+            'metadata-only, with / without ignore_value_expectation, same / other edition); `pybufrkit query %name` over files of '
+            'three editions in every order.'),
+    'C18': ('; alphabet of 10 symbols (backslash); in-process command line (script as argument / file / stdin, -n x pragma)', ''),
+    'C19': ('', ' Refusal is enumerated for sign-magnitude and in-place overwrite overflow, past-the-end for every typed read.'),
+    'C20': ('', ' The replication-only idiom is used twice inside one defined sequence, defined by a continuation message without Table A/B entries.'),
+}
+
+
 def build():
     props = [json.loads(l) for l in open(os.path.join(VERIF, 'properties.jsonl'))]
     checks, na = [], []
@@ -267,9 +302,10 @@ def build():
                 'evidence_file': 'evidence/%s.json' % pid,
                 'replay_cmd_template': './vcheck replay {path}',
                 'engine': meta.get('engine', 'mc-explorer'),
-                'level_claimed': {'category': meta['level'], 'text': meta['text'], 'design_ref': meta['design']},
+                'level_claimed': {'category': meta['level'], 'text': meta['text'] + EXTRA.get(pid, ('', ''))[1],
+                                  'design_ref': meta['design'] + ', §13.3'},
                 'level_note': meta['note'],
-                'technique': meta['technique'],
+                'technique': meta['technique'] + EXTRA.get(pid, ('', ''))[0],
             })
         else:
             na.append({'property_id': pid, 'reason': (meta or {}).get('na_reason', NOT_YET)})
